@@ -62,17 +62,17 @@ func (r *Rand) Fork(tag uint64) *Rand { return NewRand(r.Uint64() ^ tag*0xD6E8FE
 // ---------------------------------------------------------------- flags / run context
 
 type Ctx struct {
-	Prop     string
-	Tier     string
-	Seed     uint64
-	Oracle   string
-	Out      string // result json for bin/check
-	Replay   string // replay file to re-run (optional)
-	Known    string
-	ReplayDir string
-	start    time.Time
-	Cov      *Coverage
-	known    []KnownFinding
+	Prop       string
+	Tier       string
+	Seed       uint64
+	Oracle     string
+	Out        string // result json for bin/check
+	Replay     string // replay file to re-run (optional)
+	Known      string
+	ReplayDir  string
+	start      time.Time
+	Cov        *Coverage
+	known      []KnownFinding
 	Violations []ViolationRec
 	KnownHits  []string
 }
@@ -243,8 +243,8 @@ func (c *Coverage) Case(canonical string, nontrivial bool, sample any) {
 		c.nontrivial[k] = struct{}{}
 	}
 }
-func (c *Coverage) Count(key string)        { c.Dist[key]++ }
-func (c *Coverage) Add(key string, n int)   { c.Dist[key] += n }
+func (c *Coverage) Count(key string)      { c.Dist[key]++ }
+func (c *Coverage) Add(key string, n int) { c.Dist[key] += n }
 func (c *Coverage) Bucket(key string, v int) { // power-of-two-ish size buckets
 	b := 0
 	for x := v; x > 0; x >>= 1 {
